@@ -63,11 +63,26 @@ def run_arb_case(case, judged):
     rng = random.Random(case["stim_seed"])
     n, aw, dw, gran = case["n"], case["aw"], case["dw"], case["gran"]
     afeat = set(case["features"])
+    from vmon.simkit import decoy
+
+    def twin():
+        t = wishbone.Arbiter(addr_width=aw, data_width=dw, granularity=gran, features=afeat)
+        for i, d in enumerate(case["intrs"]):
+            t.add(wishbone.Interface(addr_width=aw, data_width=dw, granularity=d["gran"], features=set(d["features"]),
+                                     path=(f"t{i}",)))
+        return t
+
+    decoy(rng, twin)
     arb = wishbone.Arbiter(addr_width=aw, data_width=dw, granularity=gran, features=afeat)
     intrs = []
     for i, d in enumerate(case["intrs"]):
         ib = wishbone.Interface(addr_width=aw, data_width=dw, granularity=d["gran"], features=set(d["features"]),
                                 path=(f"i{i}",))
+        if rng.random() < 0.1:
+            try:       # an incompatible initiator is refused; the arbiter keeps being used afterwards
+                arb.add(wishbone.Interface(addr_width=aw + 1, data_width=dw, granularity=d["gran"], path=(f"bad{i}",)))
+            except ValueError:
+                pass
         arb.add(ib)
         intrs.append(ib)
     bus = arb.bus
